@@ -82,3 +82,10 @@ class Client:
     async def publish(self, topic, payload=None, properties=None,
                       retain=False, **kw):
         self.published.append((topic, payload, properties, retain, kw))
+        # driver aid: messages that reach the listener while publish() is still awaiting
+        hook, self.publish_hook = getattr(self, "publish_hook", None), None
+        if hook is not None:
+            import asyncio
+            await asyncio.sleep(0)
+            hook()
+            await asyncio.sleep(0)
